@@ -89,7 +89,7 @@ pub struct Case {
 impl Case {
     pub fn parse(line: &str) -> Option<Case> {
         let t: Vec<&str> = line.trim().split(' ').collect();
-        if t.len() != 9 || (t[0] != "R" && t[0] != "A" && t[0] != "F") {
+        if t.len() != 9 || (t[0] != "R" && t[0] != "A" && t[0] != "F" && t[0] != "P") {
             return None;
         }
         let script = if t[5] == "-" {
@@ -599,10 +599,85 @@ pub fn run_fastq(c: &Case) -> String {
 pub fn run_case(line: &str) -> String {
     match Case::parse(line) {
         None => "bad-case".to_string(),
+        Some(c) if c.kind == "P" => run_path(&c),
         Some(c) => match c.fmt.as_str() {
             "fa" => run_fasta(&c),
             "fq" => run_fastq(&c),
             _ => "bad-case".to_string(),
         },
     }
+}
+
+
+static PATH_COUNTER: std::sync::atomic::AtomicUsize = std::sync::atomic::AtomicUsize::new(0);
+
+/// `P` cases: the input is written to a file and opened with `from_path` (capacity 65536 in the case line = the
+/// crate's default) or `from_path_with_capacity`; operations `n`, `o`, `p` only. Same observation format as `R`.
+fn run_path(c: &Case) -> String {
+    let k = PATH_COUNTER.fetch_add(1, std::sync::atomic::Ordering::SeqCst);
+    let path = std::env::temp_dir().join(format!("seqio_harness_{}_{}.in", std::process::id(), k));
+    if std::fs::write(&path, &c.input).is_err() {
+        return "bad-case".to_string();
+    }
+    let mut out: Vec<String> = vec![];
+    let res = guarded(|| {
+        if c.fmt == "fa" {
+            let mut rdr = if c.cap == 65536 {
+                fasta::Reader::from_path(&path).unwrap()
+            } else {
+                fasta::Reader::from_path_with_capacity(&path, c.cap).unwrap()
+            };
+            for op in &c.ops {
+                out.push(match op {
+                    Op::Next => match rdr.next() {
+                        None => "N".to_string(),
+                        Some(Err(e)) => fa_err(&e),
+                        Some(Ok(r)) => format!("R:{}", fa_rec(&r)),
+                    },
+                    Op::Owned => match rdr.records().next() {
+                        None => "N".to_string(),
+                        Some(Err(e)) => fa_err(&e),
+                        Some(Ok(r)) => format!("O:{}", fa_owned(&r)),
+                    },
+                    Op::Pos => match rdr.position() {
+                        None => "P-".to_string(),
+                        Some(p) => format!("P{}.{}", p.line(), p.byte()),
+                    },
+                    _ => "bad-op".to_string(),
+                });
+            }
+        } else {
+            let mut rdr = if c.cap == 65536 {
+                fastq::Reader::from_path(&path).unwrap()
+            } else {
+                fastq::Reader::from_path_with_capacity(&path, c.cap).unwrap()
+            };
+            for op in &c.ops {
+                out.push(match op {
+                    Op::Next => match rdr.next() {
+                        None => "N".to_string(),
+                        Some(Err(e)) => fq_err(&e),
+                        Some(Ok(r)) => format!("R:{}", fq_rec(&r)),
+                    },
+                    Op::Owned => match rdr.records().next() {
+                        None => "N".to_string(),
+                        Some(Err(e)) => fq_err(&e),
+                        Some(Ok(r)) => format!("O:{}", fq_owned(&r)),
+                    },
+                    Op::Pos => {
+                        let p = rdr.position();
+                        format!("P{}.{}", p.line(), p.byte())
+                    }
+                    _ => "bad-op".to_string(),
+                });
+            }
+        }
+    });
+    let _ = std::fs::remove_file(&path);
+    match res {
+        Caught::Ok(()) => {}
+        Caught::Panic => out.push("PANIC".to_string()),
+        Caught::Hang => out.push("HANG".to_string()),
+    }
+    out.join(";")
 }
